@@ -75,9 +75,11 @@ Definition mem_stage (s : store) (b : mem_batch) (o : bop) : mem_batch :=
       | Put k v _ => mk_mem_batch (set cache k (Some v)) (S n) None
       | Del k => mk_mem_batch (set cache k None) (S n) None
       | DelCur k v _ =>
-          (* bytes.Compare(b.get(key), it.Val()) != 0: a missing key compares equal to an empty value *)
-          let cur := match mem_bget cache s k with Some x => x | None => [] end in
-          let err := if beqb cur v then None else Some (RCond, None) in     (* plain ErrCASFailed *)
+          (* cur := b.get(key); cur == nil || !bytes.Equal(cur, it.Val()): a missing key never matches *)
+          let err := match mem_bget cache s k with
+                     | Some x => if beqb x v then None else Some (RCond, None)     (* plain ErrCASFailed *)
+                     | None => Some (RCond, None)
+                     end in
           mk_mem_batch (set cache k None) (S n) err
       end
   end.
